@@ -7,6 +7,7 @@ R7.4  tag grouping agreement between EndpointsEmitter.emit and ClientVisitor.vis
       same default tag, same canonical-spelling score, same class/module derivation)
 R7.6  str-enum options (NamingStrategy, HTTPMethod) are compared by value, never by identity: the strategy selected as a plain
       string is honoured
+R7.7  the tag grouping key is at least as coarse as the module / class names derived from a tag (no two groups share a file)
 R7.5  no filter between grouping and emission: every operation of a tag is visited, every tag yields a file, a
       class entry and an APIClient property
 """
@@ -103,6 +104,45 @@ def run(repo: Repo, rep: Report, tier: str) -> None:
                 else:
                     rep.ok("R7.6", f"{mod.relpath} equality comparison with {norm(member)} #{n_cmp}", "compared by value (`==` / `in`): string and enum spellings select the same branch", f"{mod.relpath}:{n.lineno}")
     rep.count("R7.6:str_enum_comparisons", n_cmp)
+
+    # ---------------------------------------------------------------- R7.7 the grouping key is at least as coarse as the names derived from a tag
+    # Two tags with different keys form two groups; if their module (file) names coincide the second group's file overwrites the first and
+    # its operations vanish.  Necessary condition, decided on the character classes the functions can let through (string-shape abstract
+    # interpretation): every kind of character that survives in the key also survives (as itself, up to case) in the module and class name.
+    from sa.strshape import Interp, Unsupported
+
+    ns = repo.module("core.utils").classes.get("NameSanitizer")
+    if ns is None:
+        raise AnalysisError("anchor vanished: NameSanitizer")
+    shapes = {}
+    for fname in ("normalize_tag_key", "sanitize_module_name", "sanitize_class_name"):
+        f = ns.methods.get(fname)
+        if f is None:
+            raise AnalysisError(f"anchor vanished: NameSanitizer.{fname}")
+        it = Interp(f.node, f.params[0])
+        try:
+            it.run()
+        except Unsupported as e:
+            raise AnalysisError(f"R7.7: {fname} uses an operation the string-shape interpreter does not model: {e}")
+        chars = set()
+        for v, _, _ in it.returns:
+            chars |= set(v.chars)
+        shapes[fname] = chars
+    fold = lambda cs: {"A" if c in ("U", "L") else c for c in cs}  # noqa: E731  (case is folded by the key)
+    key_cs = fold(shapes["normalize_tag_key"])
+    sub = "core/utils.py:NameSanitizer.normalize_tag_key is at least as coarse as sanitize_module_name / sanitize_class_name"
+    bad = {}
+    for fname in ("sanitize_module_name", "sanitize_class_name"):
+        extra = sorted(key_cs - fold(shapes[fname]))
+        if extra:
+            bad[fname] = extra
+    if not bad:
+        rep.ok("R7.7", sub, f"characters that can survive in the key: {sorted(key_cs)}; all of them survive in module and class names", ns.methods["normalize_tag_key"].loc())
+    else:
+        rep.violation("R7.7", sub, f"tag-key-finer-than-names|{sorted(bad.items())}",
+                      f"the grouping key keeps character classes that the name functions drop ({bad}): two tags that differ only in such characters (e.g. "
+                      "'café' / 'caf', 'Data.Sources' / 'DataSources') form two groups with one module name - the second file overwrites the first and its "
+                      "operations are silently lost", ns.methods["normalize_tag_key"].loc())
 
     # ---------------------------------------------------------------- R7.3
     _dedup_site(repo.func("emitters.endpoints_emitter:EndpointsEmitter._deduplicate_operation_ids_globally"), "operation methods", "seen_methods", _Relabel(rep, "R7.3"))
